@@ -559,7 +559,7 @@ var props = map[string]propInfo{
 		rule:   "one case = a sequence of 1-6 messages (edge-biased header fields, all eight types, payload sizes from 0 to exactly the size limit, sizes beyond 64 KiB anywhere in the sequence) optionally followed by a header that must be refused (wrong magic/version/type, over-limit size), written with the real Message.Write - to a recording stream, to a stream that takes a few bytes per write, or all at once from as many goroutines onto slow streams of their own (scheduling decisions between the two instalments of each write) - and read back with the real Message.Read, into fresh or one reused Message value, over a scripted stream whose fragmentation (greedy / byte-at-a-time / random) and end (EOF alone or together with the last bytes) are drawn per case. Non-trivial: at least two messages or a read path fragmented into more reads than two per message; distinct = distinct (wire bytes, fragmentation mode, end mode) hashes",
 		assume: []string{"readers and writers obey the io.Reader/io.Writer contracts", "the reference codec (harness) states the documented layout correctly"}},
 	"C11": {level: "fault_enumeration",
-		rule:   "runs are grouped in blocks of 640 that share scenario (one call / three concurrent calls with a slow callee / subscribe + two events + call / one call under early-reply schedules), scheduler and network configuration and the decision stream; inside a block the fault is placed at I/O operation k of the client connection for EVERY k in 0..126 x {reset, close by the peer, close by the local side, partial write then error, crash of the peer's node}, plus fault-free runs; planned positions beyond the end of the execution never fire (probe plan-not-reached) and count as trivial. Every tenth block of each residue is of another kind: the application closes the endpoint itself after 0..159 scheduling decisions (blocks 4 mod 5); the incoming stream ends, by EOF or reset, after exactly N = 0..319 more bytes counted from the start of the scenario body (blocks 3 mod 10: every byte position of the replies and events); a subscriber does not read while 90..130 events arrive, a call is made, then the connection is lost (5 mod 10); the server stops reading, the sends block in mid-message, then local close / reset / peer close (7 mod 10). A Reply read completely before the Write that carried its call returned must reach its caller whatever follows. Non-trivial = the fault fired or the run is the block's fault-free run; distinct = distinct (block, fault position, resulting schedule fingerprint)",
+		rule:   "runs are grouped in blocks of 640 that share scenario (one call / three concurrent calls with a slow callee / subscribe + two events + call / one call under early-reply schedules), scheduler and network configuration and the decision stream; inside a block the fault is placed at I/O operation k of the client connection for EVERY k in 0..126 x {reset, close by the peer, close by the local side, partial write then error, crash of the peer's node}, plus fault-free runs; planned positions beyond the end of the execution never fire (probe plan-not-reached) and count as trivial. Every tenth block of each residue is of another kind: the application closes the endpoint itself after 0..159 scheduling decisions (blocks 4 mod 5; in the blocks 14 mod 20 the client is one the server made itself - Server.Client, an in-process connection - and what happens at that moment is the termination of the server); the incoming stream ends, by EOF or reset, after exactly N = 0..319 more bytes counted from the start of the scenario body (blocks 3 mod 10: every byte position of the replies and events); a subscriber does not read while 90..130 events arrive, a call is made, then the connection is lost (5 mod 10); the server stops reading, the sends block in mid-message, then local close / reset / peer close (7 mod 10). A Reply read completely before the Write that carried its call returned must reach its caller whatever follows. Non-trivial = the fault fired or the run is the block's fault-free run; distinct = distinct (block, fault position, resulting schedule fingerprint)",
 		assume: []string{"sequentially consistent interleavings at statement granularity", "the simulated transport contract (DESIGN.md 3.4, 9.1) incl. TCP-like late writes matches the real transports", "exhaustive over fault positions of each sampled block only"}},
 	"C08": {level: "fault_enumeration",
 		rule:   "encodings are sampled (message, dynamic value incl. opaque composite signatures, typed data for generated signatures, meta-object, object reference, service info, capability map, Go values through the reflection codec); an encoding counts only if the full decode succeeds and consumes every byte. For each, EVERY cut position 0<=k<len (above 4096 bytes - messages of up to 200 KB are among the samples - the first and last 64 positions, 256 random ones and every offset around the 4 KiB / 64 KiB / 128 KiB boundaries; reported by the probe cuts-sampled-not-exhaustive) x {EOF, last bytes together with EOF, ErrUnexpectedEOF, connection reset} x {greedy, random fragmentation} must be refused. evaluations = truncated decodes; distinct_nontrivial = distinct (kind, encoding bytes)",
